@@ -197,3 +197,111 @@ func TestC05Outs(t *testing.T) {
 		return c
 	}, runC05Out)
 }
+
+// Two different Go types that print the same (%T): function-local types of one
+// name, like model.Row in two packages. The same file is read into one, then into
+// the other (by value and by pointer): each read is judged for its own type's
+// layout — whatever an earlier read built for another type is not this type's.
+func sameNameTypeA() (reflect.Type, func(p unsafe.Pointer) (int64, string, [2]uint64)) {
+	type Row struct {
+		G0   [2]uint64
+		ID   int64  `json:"id"`
+		Name string `json:"name"`
+	}
+	return reflect.TypeOf(Row{}), func(p unsafe.Pointer) (int64, string, [2]uint64) {
+		r := (*Row)(p)
+		return r.ID, r.Name, r.G0
+	}
+}
+
+func sameNameTypeB() (reflect.Type, func(p unsafe.Pointer) (int64, string, [2]uint64)) {
+	type Row struct {
+		Name string `json:"name"`
+		G0   [2]uint64
+		Pad  [3]byte
+		ID   int64 `json:"id"`
+	}
+	return reflect.TypeOf(Row{}), func(p unsafe.Pointer) (int64, string, [2]uint64) {
+		r := (*Row)(p)
+		return r.ID, r.Name, r.G0
+	}
+}
+
+func sameNameTypes(byPointer bool, first int) error {
+	var buf bytes.Buffer
+	type src struct {
+		ID   int64  `json:"id"`
+		Name string `json:"name"`
+	}
+	enc, err := avro.NewEncoderFor[src](&buf, avro.CompressionNull, 1000)
+	if err != nil {
+		return fmt.Errorf("VERIF-INCONCLUSIVE %v", err)
+	}
+	for i := 0; i < 3; i++ {
+		if err := enc.Encode(&src{ID: int64(7000 + i), Name: fmt.Sprintf("row-%d", i)}); err != nil {
+			return fmt.Errorf("VERIF-INCONCLUSIVE %v", err)
+		}
+	}
+	if err := enc.Flush(); err != nil {
+		return fmt.Errorf("VERIF-INCONCLUSIVE %v", err)
+	}
+	ta, geta := sameNameTypeA()
+	tb, getb := sameNameTypeB()
+	if fmt.Sprintf("%v", ta) != fmt.Sprintf("%v", tb) || ta == tb {
+		return fmt.Errorf("VERIF-INCONCLUSIVE the two local types do not print alike: %v %v", ta, tb)
+	}
+	types := []reflect.Type{ta, tb}
+	gets := []func(unsafe.Pointer) (int64, string, [2]uint64){geta, getb}
+	for round := 0; round < 2; round++ {
+		k := (first + round) % 2
+		var out interface{}
+		if byPointer {
+			out = reflect.New(types[k]).Interface()
+		} else {
+			out = reflect.New(types[k]).Elem().Interface()
+		}
+		i := 0
+		err := avro.ReadFile(bytes.NewReader(buf.Bytes()), out, func(p unsafe.Pointer, rb *avro.ResourceBank) error {
+			id, name, g := gets[k](p)
+			if id != int64(7000+i) || name != fmt.Sprintf("row-%d", i) || g != [2]uint64{} {
+				return fmt.Errorf("record %d read into the %s of two types printing as %v: id %d, name %q, fields outside the schema %v", i, []string{"first", "second"}[round], types[k], id, name, g)
+			}
+			i++
+			return nil
+		})
+		if err != nil {
+			return err
+		}
+		if i != 3 {
+			return fmt.Errorf("%d records delivered, 3 written", i)
+		}
+	}
+	return nil
+}
+
+func TestC05SameName(t *testing.T) {
+	col := stats.New("C05")
+	defer col.Flush()
+	for _, byPointer := range []bool{false, true} {
+		for first := 0; first < 2; first++ {
+			c := struct {
+				ByPointer bool
+				First     int
+			}{byPointer, first}
+			err := protect(func() error { return sameNameTypes(byPointer, first) })
+			col.Record(c, true, "two_types_of_one_name")
+			if err != nil {
+				failCase(t, "C05", "c05samename", c, err)
+			}
+		}
+	}
+}
+
+func init() {
+	registerReplay("c05samename", func(c struct {
+		ByPointer bool
+		First     int
+	}) error {
+		return sameNameTypes(c.ByPointer, c.First)
+	})
+}
